@@ -7,7 +7,7 @@ cd "$(dirname "$0")/.."
 miss=0
 for d in seeded/${1:-}*/; do
   name=$(basename "$d")
-  prop=$(python3 -c "import json;print(json.load(open('$d/meta.json'))['breaks_property'])")
+  prop=$(python3 -c "import json;m=json.load(open('$d/meta.json'));print(m.get('regress_with', m['breaks_property']))")
   if ! git -C /repo apply --check "$PWD/$d/patch.diff" 2>/dev/null; then echo "$name $prop PATCH-NO-LONGER-APPLIES"; continue; fi
   git -C /repo apply "$PWD/$d/patch.diff"
   o=$(./check $prop --tier quick 2>&1); rc=$?
